@@ -20,7 +20,7 @@ count" hold there by construction.  Here they are *not* built in:
 * every access goes through `Heap.cell`, which FAULTS (`Except`) on an unallocated address or on a freed cell.
 
 A deep-copying `clone`, a `clone` that forgets the count, a `to_dyn!` arm that builds a handle to some other address
-are all expressible here (see the mutants in `Rrtk/Thm/Ext/C17.lean`); the theorems there show that the functions
+are all expressible here (see the mutants in `Rrtk/Thm/Lemmas/C17Heap.lean`); the theorems there show that the functions
 below do none of that, and that this machine refines the `RefCase` model the driver runs.
 -/
 import Rrtk.Reference
@@ -228,7 +228,7 @@ def hexec (feats : List String) (s : RState) : HOp → Except HFault RState
   | .write i v => s.write i v
   | .drop i => s.drop i
 
-/-- run a program with an arbitrary statement interpreter (the mutants of `Thm/Ext/C17.lean` plug in theirs) -/
+/-- run a program with an arbitrary statement interpreter (the mutants of `Thm/Lemmas/C17Heap.lean` plug in theirs) -/
 def hrunWith (ex : RState → HOp → Except HFault RState) : RState → List HOp → Except HFault RState
   | s, [] => .ok s
   | s, op :: rest =>
